@@ -1,6 +1,6 @@
 (* Correspondence checker for C10: tempering steps on real Ising ladders. *)
 From Coq Require Import List QArith ZArith NArith Bool Arith.
-From QmcV Require Import Model.Prog Model.Sse Model.Ham Model.Diagonal Model.Tempering Check.Common.
+From QmcV Require Import Model.Prog Model.Sse Model.Ham Model.Diagonal Model.Tempering Proofs.SwapRatio Check.Common.
 Import ListNotations.
 Local Open Scope nat_scope.
 
@@ -36,7 +36,8 @@ Definition check (c : case) : verdict :=
            end
   | Probe a b thr =>
       match equalise [a; b] with
-      | [a'; b'] => of_bool (close thr (qmin1q (p_swap a' b')))
+      (* [swap_hyps]: the executable premises of C05_p_swap_is_weight_ratio hold for this real pair *)
+      | [a'; b'] => of_bool (close thr (qmin1q (p_swap a' b')) && swap_hyps a' b')
       | _ => VFail
       end
   end.
